@@ -46,10 +46,22 @@ func (s *Session) ExecQuery(q string) error {
 		fmt.Printf("created database %s\n\r", stmt.Name)
 		return nil
 	case sql.UseStatement:
+		if s.RelationService != nil && strings.ToLower(s.CurDB) == strings.ToLower(stmt.DBName) {
+			// this database is already selected
+			fmt.Printf("selected database %s\n\r", stmt.DBName)
+			return nil
+		}
 		rs, err := storage.OpenRelation(stmt.DBName, true)
 		if err != nil {
 			// the current selection stays as it is
 			return err
+		}
+		if s.RelationService != nil {
+			// flush the previous database and stop its flush timer
+			if err := s.RelationService.Close(); err != nil {
+				rs.Close()
+				return err
+			}
 		}
 		s.CurDB = stmt.DBName
 		s.RelationService = rs
